@@ -207,3 +207,13 @@ func hasRegistryLeaf(msgs []sdk.Msg) bool {
 	}
 	return false
 }
+
+// govExecutedMustFail: a proposal that passed and executed ran a message the statements say must
+// be rejected (judged against the model immediately before the message was applied).
+func govExecutedMustFail(w *World, prop string, rules map[string]bool) {
+	for _, ge := range w.M.Gov.Executed {
+		if ge.Exp.MustFail && rules[ge.Exp.Rule] {
+			w.Violate(prop, prop+"/accepted/"+ge.Exp.Rule+"/via-governance", "proposal %d passed and executed %s although %s", ge.Proposal, msgKind(ge.Msg), ge.Exp.Rule)
+		}
+	}
+}
